@@ -37,7 +37,7 @@ type Program struct {
 var families = []string{"buffer", "deadline", "dpipe", "vnet", "filters", "udp", "build-networks"}
 
 // number of operation codes per family
-var nOps = map[string]int{"buffer": 9, "deadline": 6, "dpipe": 7, "vnet": 10, "filters": 7, "udp": 7, "build-networks": 3}
+var nOps = map[string]int{"buffer": 9, "deadline": 6, "dpipe": 7, "vnet": 10, "filters": 9, "udp": 7, "build-networks": 3}
 
 func quiet() logging.LoggerFactory {
 	lf := logging.NewDefaultLoggerFactory()
@@ -226,6 +226,10 @@ func newWorld(family string, goroutines int) (*world, error) {
 			return nil, err
 		}
 		lossf, _ := vnet.NewLossFilter(n3, 10)
+		n4, _ := vnet.NewNet(&vnet.NetConfig{StaticIPs: []string{"10.0.0.5"}})
+		delayf, _ := vnet.NewDelayFilter(n4, 200*time.Microsecond)
+		dctx, dcancel := context.WithCancel(context.Background())
+		go delayf.Run(dctx)
 		if err = r.AddNet(n1); err != nil {
 			return nil, err
 		}
@@ -233,6 +237,9 @@ func newWorld(family string, goroutines int) (*world, error) {
 			return nil, err
 		}
 		if err = r.AddNet(lossf); err != nil {
+			return nil, err
+		}
+		if err = r.AddNet(delayf); err != nil {
 			return nil, err
 		}
 		if err = r.Start(); err != nil {
@@ -252,6 +259,11 @@ func newWorld(family string, goroutines int) (*world, error) {
 		}
 		a2 := &net.UDPAddr{IP: net.ParseIP("10.0.0.3"), Port: 4000}
 		a3 := &net.UDPAddr{IP: net.ParseIP("10.0.0.4"), Port: 4000}
+		c4, err := n4.ListenUDP("udp", &net.UDPAddr{IP: net.ParseIP("10.0.0.5"), Port: 4000})
+		if err != nil {
+			return nil, err
+		}
+		a4 := &net.UDPAddr{IP: net.ParseIP("10.0.0.5"), Port: 4000}
 		return &world{
 			run: func(g, op int) {
 				switch op {
@@ -271,9 +283,22 @@ func newWorld(family string, goroutines int) (*world, error) {
 					_, _, _ = c3.ReadFrom(make([]byte, 300))
 				case 6:
 					tbf.Set(vnet.TBFRate(5*vnet.MBit), vnet.TBFMaxBurst(10000))
+				case 7:
+					_, _ = c1.WriteTo(make([]byte, 50), a4)
+				case 8:
+					_ = c4.SetReadDeadline(soon())
+					_, _, _ = c4.ReadFrom(make([]byte, 300))
 				}
 			},
-			release: func() { _ = c1.Close(); _ = c2.Close(); _ = c3.Close(); _ = r.Stop(); _ = tbf.Close() },
+			release: func() {
+				_ = c1.Close()
+				_ = c2.Close()
+				_ = c3.Close()
+				_ = c4.Close()
+				_ = r.Stop()
+				dcancel()
+				_ = tbf.Close()
+			},
 		}, nil
 	case "udp":
 		ln, err := udp.Listen("udp", &net.UDPAddr{IP: net.IPv4(127, 0, 0, 1)})
@@ -521,4 +546,3 @@ func TestC19Replay(t *testing.T) {
 	}
 }
 
-var _ = context.Background
